@@ -145,6 +145,27 @@ pub fn run(thorough: bool, seed: u64, w: &mut impl std::io::Write) {
             }
         }
     }
+    // lengths named by integer literals of the source under test (and their neighbours): terminator at the end, early, absent
+    let nd = nums_dict();
+    let mut nn = 0usize;
+    for &v in nd.iter().filter(|v| **v >= 10 && **v <= 70000).take(40) {
+        for len in [v - 1, v, v + 1] {
+            for term in [&b"\n"[..], b"\r\n", b"\0"] {
+                for pos in [Some(len - term.len()), Some(3usize), None] {
+                    let mut s = vec![b'z'; len];
+                    if let Some(p) = pos {
+                        s[p..p + term.len()].copy_from_slice(term);
+                    }
+                    for f in provided {
+                        line(f, &s, w);
+                        n += 1;
+                        nn += 1;
+                    }
+                }
+            }
+        }
+    }
+    eprintln!("STAT df numeric_dictionary={} cases={}", nd.len(), nn);
     // inputs far longer than any buffer size the crate documents (windows, block sizes, u16 lengths): terminator early,
     // late, absent
     for len in [4090usize, 4096, 4097, 5000, 8192, 8199, 10000, 65537] {
